@@ -120,6 +120,9 @@ func (s *Sched) Go(a *Actor, fn func(ctx context.Context)) {
 		}()
 		fn(ctx)
 	}()
+	// Let the new goroutine run alone until it parks (or finishes): two runnable goroutines at once would
+	// leave their relative order to the Go scheduler.
+	synctest.Wait()
 }
 
 // Park blocks the calling goroutine until the scheduler releases it and
